@@ -6,7 +6,9 @@
    Oblivious / RoundTrip stated over Write = clear-then-place.
 2. TLC (MCInsnFields): checks the table's consistency and the three properties for every encoding x
    boundary values x 7 initial words, exports the table (mask, segments) and one exact vector per
-   case. The "OR without clearing" variant must be rejected (anti-vacuity).
+   case. Three broken writers - OR without clearing the field, the MOVN/MOVZ writer that rewrites
+   the whole opcode, the CALL36 carry into bit 25: defects wild once had - must each be rejected
+   (anti-vacuity); the same behaviour in the real code is reported as <arch>:<use>:oblivious/local.
 3. Binding (mode F, public linker-utils API through harness/wildconf `insn`):
    - every TLC vector is replayed into the real write_to_value: exact equality of the word;
    - per encoding, a sweep of the real write_to_value/read_value against the TLC-exported mask and
@@ -34,6 +36,9 @@ META = {
 }
 
 SUBS = ("local", "oblivious", "encode", "read_value")
+BROKEN = [("mc/InsnFields_broken_or.cfg", "ObliviousInv"),
+          ("mc/InsnFields_broken_movnz.cfg", "LocalInv"),
+          ("mc/InsnFields_broken_call36.cfg", "LocalInv")]
 
 
 def bits_to_int(bits):
@@ -50,12 +55,14 @@ def model(ctx, cov):
     if len(r.records) != r.distinct:
         raise ToolError(f"{r.distinct} states but {len(r.records)} REPLAY records")
     r.records = [x for x in r.records if x["kind"] != "pre"]
-    b = tlc.run_tlc("MCInsnFields", "mc/InsnFields_oronly.cfg", workers=1, timeout=300, coverage=False)
-    if b.ok or b.violated != "ObliviousInv":
-        raise ToolError(f"OR-without-clear variant was not rejected on Oblivious (got {b.violated}): vacuous")
     cov["states"], cov["transitions"] = r.distinct, r.generated
-    cov["tlc_runs"] = [{"cfg": "mc/InsnFields_quick.cfg", **r.summary()},
-                       {"cfg": "mc/InsnFields_oronly.cfg", "expected_violation": b.violated}]
+    cov["tlc_runs"] = [{"cfg": "mc/InsnFields_quick.cfg", **r.summary()}]
+    # anti-vacuity: the broken writers (defects wild once had) must each be rejected
+    for cfg, inv in BROKEN:
+        b = tlc.run_tlc("MCInsnFields", cfg, workers=2, timeout=600, coverage=False)
+        if b.ok or b.violated != inv:
+            raise ToolError(f"broken writer {cfg} was not rejected on {inv} (got {b.violated}): vacuous")
+        cov["tlc_runs"].append({"cfg": cfg, "expected_violation": b.violated})
     tables = {t["ei"]: t for t in r.records if t["kind"] == "table"}
     vectors = [v for v in r.records if v["kind"] == "vector"]
     for t in tables.values():
